@@ -140,6 +140,8 @@ def r3_roles(ctx, chk, rule="C05.3"):
 
 
 def run(ctx, chk):
+    from . import C13 as _C13
+    _C13.r34_opacity(ctx, chk, "C05.pre:C13.3", "C05.pre:C13.4")      # tied actions are listed in transition order, never ordered by their labels
     shared.rule_no_keyed_collapse(ctx, chk, "C05.0:keyed", ("get_best_strategies_total_rewards", "get_worst_strategies_total_rewards", "prune_paths_reachability"))      # parallel transitions are separate transitions
     # observed through the batch driver: run_games()[name]['final_strategies', 'reachability_strategies'] must be this game's, this mode's value
     from . import C12 as _C12
